@@ -149,7 +149,7 @@ def plan(tier):
         sw = [z, (1, 0, 0, 0), (0, 0, 1, 0), (0, 0, 0, 1), (1, 1, 1, 1)]
         return [
             ([Config('java', s, 'S') for s in sw], [('prng', 1), ('prng', 2)], 1, 8, False),
-            ([Config('java', z, 'D')], [('prng', c) for c in range(1, 9)] + ['first', 'alt'], 0, 1, False),
+            ([Config('java', z, 'M'), Config('java', z, 'D')], [('prng', c) for c in range(1, 41)] + ['first', 'alt'], 0, 1, False),
         ]
     sw = [(a, b, c, d) for a in (0, 1) for b in (0, 1) for c in (0, 1) for d in (0, 1)]
     pol = ['first', 'last', 'alt'] + [('prng', c) for c in range(1, 9)]
